@@ -126,9 +126,9 @@ fn write_cert_copies(dir: &Path) {
 
 /// render, write, load, replay on a fresh state, compare, reload. `prefix` namespaces the
 /// signatures of constraint-neighbour classes. Returns what the loader said.
-fn pipeline(run: &Run, rep: &mut Report, rng: &mut Rng, m: &Model, class: Option<&str>, allow_implicit: bool, judge_state: bool) -> (Loaded, String) {
+fn pipeline(run: &Run, rep: &mut Report, rng: &mut Rng, m: &Model, class: Option<&str>, judge_state: bool) -> (Loaded, String) {
     let mut problems: Vec<(String, String, Value)> = Vec::new();
-    let out = pipeline_inner(run, rep, rng, m, allow_implicit, judge_state, &mut problems);
+    let out = pipeline_inner(run, rep, rng, m, judge_state, &mut problems);
     match class {
         None => {
             for (sig, what, extra) in problems {
@@ -151,7 +151,7 @@ fn pipeline(run: &Run, rep: &mut Report, rng: &mut Rng, m: &Model, class: Option
     out
 }
 
-fn pipeline_inner(run: &Run, rep: &mut Report, rng: &mut Rng, m: &Model, allow_implicit: bool, judge_state: bool, problems: &mut Vec<(String, String, Value)>) -> (Loaded, String) {
+fn pipeline_inner(run: &Run, rep: &mut Report, rng: &mut Rng, m: &Model, judge_state: bool, problems: &mut Vec<(String, String, Value)>) -> (Loaded, String) {
     let prefix = "";
     let tdir = run.thread_dir();
     if m.cert_use.iter().any(|u| u.copied) && !tdir.join("c0.pem").exists() {
@@ -196,10 +196,25 @@ fn pipeline_inner(run: &Run, rep: &mut Report, rng: &mut Rng, m: &Model, allow_i
         }
         Ok(Err(e)) => {
             let _ = std::fs::remove_file(&path);
+            if let Some(kind) = h2_rule_broken(m) {
+                rep.obs(&format!("h2_buffer_rule_rejections.{kind}_listener"), 1);
+            }
             return (Loaded::Rejected(e.to_string()), toml);
         }
         Ok(Ok(c)) => c,
     };
+    // model rule (doc/configure.md, "Buffer size for HTTP/2"): buffer_size < 16393 with any HTTPS
+    // listener offering h2 — declared or created for a frontend on an undeclared address — must
+    // be rejected at load
+    rep.obs("h2_buffer_rule_judged_on_accepted_files", 1);
+    if let Some(kind) = h2_rule_broken(m) {
+        let buffer = m.global.get("buffer_size").and_then(|v| v.as_u64()).unwrap_or(0);
+        rep.violation(
+            &format!("config/accepted_but_invalid/h2_listener_with_small_buffer/{kind}"),
+            &format!("buffer_size = {buffer} is below the documented HTTP/2 minimum of 16393 and an HTTPS listener that is {kind} offers h2, yet load_from_path accepted the file (alpn of the loaded HTTPS listeners: {:?})", config.https_listeners.iter().map(|l| (l.address.to_string(), l.alpn_protocols.clone())).take(4).collect::<Vec<_>>()),
+            run.witness(m, &toml, json!({"rule": "buffer_size >= 16393 when an HTTPS listener offers h2", "listener": kind, "buffer_size": buffer})),
+        );
+    }
     rep.obs("files_loaded", 1);
     rep.obs(bucket(predicted), 1);
     if predicted > 255 {
@@ -277,7 +292,7 @@ fn pipeline_inner(run: &Run, rep: &mut Report, rng: &mut Rng, m: &Model, allow_i
     // ---- declared == loaded
     if judge_state {
         let mut t = Tally::default();
-        compare(&Expect { model: m, allow_implicit_listeners: allow_implicit }, &st, &mut t);
+        compare(&Expect { model: m }, &st, &mut t);
         for (k, n) in &t.counts {
             rep.obs(k, *n);
         }
@@ -373,17 +388,17 @@ fn valid_case(run: &Run, rep: &mut Report) {
     let class = rng.below(100);
     let big = if thorough { 10 } else { 1 };
     let (sz, target): (Sizes, Option<usize>) = match class {
-        0..=9 => (Sizes { listeners: rng.usize_below(3), clusters: rng.usize_below(3), max_fronts: 2, max_backends: 2, density }, None),
-        10..=49 => (Sizes { listeners: 1 + rng.usize_below(6), clusters: rng.usize_below(7), max_fronts: 4, max_backends: 4, density }, None),
+        0..=9 => (Sizes { listeners: rng.usize_below(3), clusters: rng.usize_below(3), max_fronts: 2, max_backends: 2, density, implicit: true }, None),
+        10..=49 => (Sizes { listeners: 1 + rng.usize_below(6), clusters: rng.usize_below(7), max_fronts: 4, max_backends: 4, density, implicit: true }, None),
         50..=74 => {
             let t = 253 + rng.usize_below(7);
-            (Sizes { listeners: 2 + rng.usize_below(30), clusters: 1 + rng.usize_below(20), max_fronts: 5, max_backends: 5, density: density.min(60) }, Some(t))
+            (Sizes { listeners: 2 + rng.usize_below(30), clusters: 1 + rng.usize_below(20), max_fronts: 5, max_backends: 5, density: density.min(60), implicit: true }, Some(t))
         }
-        75..=92 => (Sizes { listeners: rng.usize_below(200 * big), clusters: rng.usize_below(150 * big), max_fronts: 1 + rng.usize_below(20), max_backends: 1 + rng.usize_below(20), density: density.min(50) }, None),
+        75..=92 => (Sizes { listeners: rng.usize_below(200 * big), clusters: rng.usize_below(150 * big), max_fronts: 1 + rng.usize_below(20), max_backends: 1 + rng.usize_below(20), density: density.min(50), implicit: true }, None),
         _ => match rng.below(3) {
-            0 => (Sizes { listeners: 300 * big + rng.usize_below(300 * big), clusters: 2, max_fronts: 3, max_backends: 3, density: density.min(40) }, None),
-            1 => (Sizes { listeners: 4, clusters: 1 + rng.usize_below(3), max_fronts: 500 * big, max_backends: 3, density: density.min(40) }, None),
-            _ => (Sizes { listeners: 2, clusters: 1 + rng.usize_below(3), max_fronts: 2, max_backends: 800 * big.min(3), density: density.min(40) }, None),
+            0 => (Sizes { listeners: 300 * big + rng.usize_below(300 * big), clusters: 2, max_fronts: 3, max_backends: 3, density: density.min(40), implicit: true }, None),
+            1 => (Sizes { listeners: 4, clusters: 1 + rng.usize_below(3), max_fronts: 500 * big, max_backends: 3, density: density.min(40), implicit: true }, None),
+            _ => (Sizes { listeners: 2, clusters: 1 + rng.usize_below(3), max_fronts: 2, max_backends: 800 * big.min(3), density: density.min(40), implicit: true }, None),
         },
     };
     let mut m = valid_model(&mut rng, sz);
@@ -395,7 +410,7 @@ fn valid_case(run: &Run, rep: &mut Report) {
         bulk_towards(&mut rng, &mut m, t);
         steer_to(&mut rng, &mut m, t);
     }
-    let (loaded, toml) = pipeline(run, rep, &mut rng, &m, None, false, true);
+    let (loaded, toml) = pipeline(run, rep, &mut rng, &m, None, true);
     match loaded {
         Loaded::Rejected(e) => {
             // the generator only emits documented grammar: a refusal is reported, but as its own
@@ -531,7 +546,7 @@ fn sweep_case(run: &Run, rep: &mut Report) {
         rep.obs("sweep_point_off_target", 1);
     }
     let before = rep.observed.get("message_lists_generated").copied().unwrap_or(0);
-    let (loaded, _) = pipeline(run, rep, &mut rng, &m, None, false, true);
+    let (loaded, _) = pipeline(run, rep, &mut rng, &m, None, true);
     let generated = rep.observed.get("message_lists_generated").copied().unwrap_or(0) > before;
     if (250..=260).contains(&total) || total >= 65_530 {
         rep.obs(&format!("sweep_result.{total}.{}", if generated { "messages_generated" } else { "no_message_list" }), 1);
@@ -589,6 +604,10 @@ const CLASSES: &[(&str, Demand)] = &[
     ("automatic_state_save_without_saved_state", Demand::MustErr),
     ("frontend_certificate_file_missing", Demand::MustErr),
     ("listener_answer_file_missing", Demand::MustErr),
+    // listener-level validation rules applied to listeners that exist only implicitly
+    ("implicit_h2_listener_buffer_size_too_small", Demand::MustErr),
+    ("implicit_listener_protocol_conflict", Demand::MustErr),
+    ("hsts_on_frontend_of_implicit_http_listener", Demand::MustErr),
     ("frontend_without_listener_http", Demand::ErrOrComplete),
     ("frontend_without_listener_https", Demand::ErrOrComplete),
     ("frontend_without_listener_tcp", Demand::ErrOrComplete),
@@ -606,7 +625,7 @@ const CLASSES: &[(&str, Demand)] = &[
 /// cluster on the TCP listener, one on the UDP listener
 fn base_model(rng: &mut Rng) -> Model {
     let density = *rng.pick(&[0u64, 20, 50]);
-    let mut m = valid_model(rng, Sizes { listeners: 0, clusters: 0, max_fronts: 0, max_backends: 0, density });
+    let mut m = valid_model(rng, Sizes { listeners: 0, clusters: 0, max_fronts: 0, max_backends: 0, density, implicit: false });
     m.global.remove("buffer_size");
     let mut g = Gen::new(rng, density);
     for p in [LProto::Http, LProto::Https, LProto::Tcp, LProto::Udp] {
@@ -794,6 +813,62 @@ fn mutate(rng: &mut Rng, class: &str, v: usize, m: &mut Model) -> String {
             label = LNAME[i].to_owned();
             m.listeners[i].legacy_answers = vec![(404, "/nonexistent/c20/404.http".to_owned(), String::new())];
         }
+        "implicit_h2_listener_buffer_size_too_small" => {
+            // the only h2-capable HTTPS listener is the default one created for a frontend with
+            // certificate on an undeclared address; the declared HTTPS listener is removed, or
+            // opts out of h2, or the whole file declares no listener at all
+            let sizes = [16_392u64, 8_192, 16_384, 4_096, 1];
+            m.global.insert("buffer_size", Tv::I(sizes[v % sizes.len()]));
+            let how = (v / sizes.len()) % 3;
+            label = ["declared_https_without_h2", "no_declared_https", "no_declared_listener"][how].to_owned();
+            m.clusters[0].frontends[1].cert = Some(rng.usize_below(CERT_FILES.len()));
+            match how {
+                0 => {
+                    m.listeners[1].opts.insert("alpn_protocols", Tv::L(vec!["http/1.1".to_owned()]));
+                    m.listeners[1].opts.remove("disable_http11");
+                    let mut f = m.clusters[0].frontends[1].clone();
+                    f.addr = spare;
+                    f.hostname = Some("implicit.example.com".to_owned());
+                    m.clusters[0].frontends.push(f);
+                }
+                1 => {
+                    m.listeners.remove(1);
+                }
+                _ => {
+                    m.listeners.clear();
+                    m.clusters.truncate(1);
+                    m.clusters[0].frontends.remove(0);
+                }
+            }
+            m.clusters[0].fronts_inline = (v / 15) % 2 == 0;
+        }
+        "implicit_listener_protocol_conflict" => {
+            // two frontends of different protocols on one undeclared address: whichever creates
+            // the default listener, the other one breaks the frontend/listener pairing rule
+            let k = v % 3;
+            label = ["http_and_tcp", "https_and_tcp", "http_and_https"][k].to_owned();
+            match k {
+                0 => {
+                    m.clusters[0].frontends[0].addr = spare;
+                    m.clusters[1].frontends[0].addr = spare;
+                }
+                1 => {
+                    m.clusters[0].frontends[1].addr = spare;
+                    m.clusters[0].frontends[1].cert = Some(0);
+                    m.clusters[1].frontends[0].addr = spare;
+                }
+                _ => {
+                    m.clusters[0].frontends[0].addr = spare;
+                    m.clusters[0].frontends[1].addr = spare;
+                    m.clusters[0].frontends[1].cert = Some(0);
+                }
+            }
+        }
+        "hsts_on_frontend_of_implicit_http_listener" => {
+            m.clusters[0].frontends[0].addr = spare;
+            m.clusters[0].frontends[0].hsts = Some(Hsts { enabled: Some(true), max_age: Some(31_536_000), ..Default::default() });
+            m.clusters[0].fronts_inline = v % 2 == 0;
+        }
         "frontend_without_listener_http" => {
             m.clusters[0].frontends[0].addr = spare;
         }
@@ -879,7 +954,7 @@ fn neighbour_case(run: &Run, rep: &mut Report) {
     // the unmodified base must load: checked on a share of the cases so that a rejection below
     // is attributable to the violated constraint
     if run.case % 7 == 0 {
-        let (l, toml) = pipeline(run, rep, &mut rng.clone(), &m, None, false, true);
+        let (l, toml) = pipeline(run, rep, &mut rng.clone(), &m, None, true);
         match l {
             Loaded::Accepted => rep.obs("neighbour_base_accepted", 1),
             Loaded::Rejected(e) => {
@@ -893,7 +968,7 @@ fn neighbour_case(run: &Run, rep: &mut Report) {
     rep.obs(&format!("neighbour_tried.{class}"), 1);
     rep.obs(&format!("neighbour_place.{class}.{place}"), 1);
     let judge = demand == Demand::ErrOrComplete && !class.ends_with("_file_missing");
-    let (loaded, toml) = pipeline(run, rep, &mut rng, &m, Some(class), true, judge);
+    let (loaded, toml) = pipeline(run, rep, &mut rng, &m, Some(class), judge);
     match (&loaded, demand) {
         (Loaded::Rejected(e), _) => {
             rep.obs(&format!("neighbour_rejected.{class}"), 1);
@@ -904,11 +979,15 @@ fn neighbour_case(run: &Run, rep: &mut Report) {
         }
         (Loaded::Accepted, Demand::MustErr) => {
             rep.obs(&format!("neighbour_accepted.{class}"), 1);
+            if h2_rule_broken(&m).is_some() {
+                // reported by the pipeline under config/accepted_but_invalid/h2_listener_with_small_buffer/*
+            } else {
             rep.violation(
                 &format!("constraint_accepted/{class}"),
                 &format!("a file violating the documented constraint '{class}' was accepted by load_from_path instead of being rejected at load time"),
                 run.witness(&m, &toml, json!({"class": class})),
             );
+            }
         }
         (Loaded::Accepted, Demand::ErrOrComplete) => {
             rep.obs(&format!("neighbour_accepted.{class}"), 1);
@@ -1004,7 +1083,7 @@ fn probe(path: &str, rep: &mut Report) {
 pub fn run(ctx: &Ctx) -> Report {
     let mut rep = Report::new(
         "exploration",
-        "an abstract model (listeners of every protocol on IPv4/IPv6 with optional knobs present or absent, HTTP/TCP/UDP clusters with overrides, frontends with hostname/path/path_type/method/position/tags/certificates/HSTS/redirects, backends) is generated first, rendered as TOML (inline and table syntaxes), loaded with Config::load_from_path, turned into messages and replayed on a fresh ConfigState as load_static_config does; the state is compared field by field with the model and the documented defaults, the file is loaded a second time over the state, and neighbours violating exactly one documented constraint must be refused; three workloads: random valid files (sizes 0..hundreds, thorough thousands, steered across 255/256/257 messages), an exhaustive sweep of the total message count 240..272 (thorough also 65530..65541) in three shapes, and 42 constraint-neighbour classes; non-trivial = at least one listener and one cluster (or a neighbour); distinct = distinct (log-size, protocol set, option count, class) shapes",
+        "an abstract model (listeners of every protocol on IPv4/IPv6 with optional knobs present or absent, HTTP/TCP/UDP clusters with overrides, frontends with hostname/path/path_type/method/position/tags/certificates/HSTS/redirects, backends) is generated first, rendered as TOML (inline and table syntaxes), loaded with Config::load_from_path, turned into messages and replayed on a fresh ConfigState as load_static_config does; the state is compared field by field with the model and the documented defaults, the file is loaded a second time over the state, and neighbours violating exactly one documented constraint must be refused; three workloads: random valid files (sizes 0..hundreds, thorough thousands, steered across 255/256/257 messages), an exhaustive sweep of the total message count 240..272 (thorough also 65530..65541) in three shapes, and 45 constraint-neighbour classes; non-trivial = at least one listener and one cluster (or a neighbour); distinct = distinct (log-size, protocol set, option count, class) shapes",
     );
     rep.assume("defaults are transcribed from doc/configure.md, doc/health_checks.md and the comments of bin/config.toml; a field left unset whose default the documentation does not state is not judged (exempt.* counters)");
     rep.assume("`request_counts` (a census of received requests) is not configuration: it is cleared before the reload comparison");
@@ -1071,6 +1150,15 @@ pub fn run(ctx: &Ctx) -> Report {
         }
     }
     rep.require("opt_present.tcp_cluster.health_check.uri");
+    for p in ["declared_https_without_h2", "no_declared_https", "no_declared_listener"] {
+        rep.require(&format!("neighbour_place.implicit_h2_listener_buffer_size_too_small.{p}"));
+    }
+    for p in ["http_and_tcp", "https_and_tcp", "http_and_https"] {
+        rep.require(&format!("neighbour_place.implicit_listener_protocol_conflict.{p}"));
+    }
+    for k in ["implicit_listeners_compared.http", "implicit_listeners_compared.https", "implicit_listeners_compared.tcp", "files_with_implicit_listeners", "h2_buffer_rule_judged_on_accepted_files", "h2_buffer_rule_rejections.declared_listener", "h2_buffer_rule_rejections.implicit_listener", "implicit_https_listener_with_buffer_size_16393"] {
+        rep.require(k);
+    }
     }
     let dir = ctx.root.join(format!("build/run-C20-{}", std::process::id()));
     if let Err(e) = std::fs::create_dir_all(&dir) {
@@ -1097,7 +1185,7 @@ pub fn run(ctx: &Ctx) -> Report {
     } else {
         let n_sweep = sweep_points(ctx).len() as u64;
         let n_valid = ctx.opt_u64("cases", ctx.tier.pick(3_000, 60_000));
-        let n_neigh = ctx.opt_u64("neighbours", ctx.tier.pick(1_260, 25_200));
+        let n_neigh = ctx.opt_u64("neighbours", ctx.tier.pick(1_350, 27_000));
         par_cases_named(ctx, &mut rep, n_sweep, "sweep", |i, r| run_label(ctx, &dir, "sweep", i, r));
         par_cases_named(ctx, &mut rep, n_neigh, "neighbour", |i, r| run_label(ctx, &dir, "neighbour", i, r));
         par_cases_named(ctx, &mut rep, n_valid, "valid", |i, r| run_label(ctx, &dir, "valid", i, r));
